@@ -4,6 +4,7 @@ import (
 	"encoding/binary"
 	"fmt"
 	"hash/crc32"
+	"net"
 	"runtime"
 	"sort"
 	"strings"
@@ -431,6 +432,129 @@ func c13Caps(r *rng, id string) {
 	emit("C13 caps id=%s res=%s", id, strings.Join(res, ","))
 }
 
+
+// (e) well-formed messages whose fields sit on the boundaries the handlers index or compare: version
+// vectors of 0..8 bytes, addresses of every length around 4 and 16, empty and long names, metadata at
+// the limit - for a member the node has never heard of and for one it knows - through the very
+// functions packetHandler runs for queued messages.
+func c13Fields(r *rng, id string) {
+	rcv, err := newCnode(ccfg{udp: 1400, verifyIn: true, verifyOut: true, proto: 2, name: "R"})
+	if err != nil {
+		return
+	}
+	defer rcv.m.Shutdown()
+	ml.VerifAliveNode(rcv.m, 2, "n1", []byte{10, 0, 0, 3}, 7946, nil, []uint8{1, 5, 2, 0, 0, 0}, nil, false)
+	total, bads := 0, []string{}
+	names := []string{"fresh", "n1", "", strings.Repeat("x", 300), "R"}
+	addrs := [][]byte{nil, {10}, {10, 0, 0}, {10, 0, 0, 7}, {10, 0, 0, 7, 1}, make([]byte, 15), make([]byte, 16), make([]byte, 17)}
+	metas := [][]byte{nil, []byte("m"), make([]byte, 511), make([]byte, 512), make([]byte, 513), make([]byte, 1200)}
+	try := func(tag string, t uint8, body []byte) {
+		total++
+		if ml.VerifHandleQueued(rcv.m, t, body, fromAddr) {
+			bads = append(bads, "panic:"+tag)
+		}
+	}
+	fresh := 0
+	for vl := 0; vl <= 8; vl++ {
+		vsn := []uint8{1, 5, 2, 0, 0, 0, 0, 0}[:vl]
+		for _, nm := range names {
+			name := nm
+			if nm == "fresh" {
+				fresh++
+				name = fmt.Sprintf("f%d", fresh)
+			}
+			a := addrs[r.intn(len(addrs))]
+			md := metas[r.intn(len(metas))]
+			msg := ml.VerifEncodeAlive(uint32(1+r.intn(5)), name, a, 7946, md, vsn)
+			try(fmt.Sprintf("alive:vsn%d:name%d:addr%d:meta%d", vl, len(name), len(a), len(md)), 4, msg[1:])
+		}
+	}
+	for _, a := range addrs {
+		fresh++
+		msg := ml.VerifEncodeAlive(3, fmt.Sprintf("f%d", fresh), a, 7946, nil, []uint8{1, 5, 2, 0, 0, 0})
+		try(fmt.Sprintf("alive:addr%d", len(a)), 4, msg[1:])
+	}
+	for _, nm := range []string{"", "n1", "R", "ghost", strings.Repeat("y", 400)} {
+		for _, fr := range []string{"", "n1", "R", nm} {
+			for _, t := range []uint8{3, 5} {
+				msg, _ := ml.VerifEncode(t, uint32(r.intn(4)), nm, []byte(fr))
+				try(fmt.Sprintf("type%d:node%d:from%d", t, len(nm), len(fr)), t, msg[1:])
+			}
+		}
+	}
+	for _, n := range []int{0, 1, 511, 512, 513, 5000} {
+		try(fmt.Sprintf("user:%d", n), 8, make([]byte, n))
+	}
+	bs := "-"
+	if len(bads) > 0 {
+		if len(bads) > 6 {
+			bads = bads[:6]
+		}
+		bs = strings.Join(bads, ",")
+	}
+	emit("C13 fld id=%s n=%d bad=%s", id, total, bs)
+}
+
+// (f) silent peers: a stream that delivers a prefix of a genuine message - nothing at all, part of the
+// label header, part of the body - and then stays open without sending more. The handler must give
+// up at the stream timeout; it must not park for ever.
+func c13Stall(r *rng, id string) {
+	c, enc := randCcfg(r)
+	snd, err := newCnode(c)
+	if err != nil {
+		return
+	}
+	defer snd.m.Shutdown()
+	rc := c
+	rc.name = "R"
+	rc.tcpTimeout = 150 * time.Millisecond
+	rcv, err := newCnode(rc)
+	if err != nil {
+		return
+	}
+	defer rcv.m.Shutdown()
+	ping, _ := ml.VerifEncode(0, 5, "R", nil)
+	fc := newFragConn(nil, nil)
+	ml.AddLabelHeaderToStream(fc, c.label)
+	ml.VerifRawSendMsgStream(snd.m, fc, ping, c.label)
+	data := fc.written()
+	cuts := []int{0, 1, 2, 3}
+	if len(c.label) > 0 {
+		cuts = append(cuts, 2+len(c.label)-1, 2+len(c.label), 2+len(c.label)+1)
+	}
+	cuts = append(cuts, len(data)/2, len(data)-1)
+	total, bads := 0, []string{}
+	for _, cut := range cuts {
+		if cut < 0 || cut >= len(data) {
+			continue
+		}
+		total++
+		a, b := net.Pipe()
+		done := make(chan struct{})
+		go func() {
+			defer func() { recover(); close(done) }()
+			ml.VerifHandleConn(rcv.m, b)
+		}()
+		go func() {
+			if cut > 0 {
+				a.Write(data[:cut])
+			}
+		}()
+		select {
+		case <-done:
+		case <-time.After(3 * time.Second):
+			bads = append(bads, fmt.Sprintf("handler-parked-on-silent-peer:cut%d/%d:label%d", cut, len(data), len(c.label)))
+		}
+		a.Close()
+		<-done
+	}
+	bs := "-"
+	if len(bads) > 0 {
+		bs = strings.Join(bads, ",")
+	}
+	emit("C13 stall id=%s label=%d enc=%s n=%d bad=%s", id, len(c.label), enc, total, bs)
+}
+
 func TestC13(t *testing.T) {
 	n := envInt("VERIF_N", 1500)
 	if thorough() {
@@ -440,4 +564,6 @@ func TestC13(t *testing.T) {
 	forCases(n/25, 132, "m", func(i int, r *rng, id string) { c13Mut(r, id) })
 	forCases(n/50, 133, "s", func(i int, r *rng, id string) { c13Str(r, id) })
 	forCases(1, 134, "c", func(i int, r *rng, id string) { c13Caps(r, id) })
+	forCases(1+n/500, 135, "f", func(i int, r *rng, id string) { c13Fields(r, id) })
+	forCases(2+n/300, 136, "t", func(i int, r *rng, id string) { c13Stall(r, id) })
 }
